@@ -732,6 +732,13 @@ def origins(body, start, through_calls=True, max_nodes=4000, call_filter=None):
                 out.add('call:' + c.best())
                 if call_filter is not None and not call_filter(c):
                     continue
+                if through_calls == 'adapters':
+                    # only result adapters (first argument) and iteration / deref / clone adapters
+                    if adapter_polarity(c) is not None or any(match_any(ITER_ADAPTERS, nn) for nn in c.names()):
+                        for a in c.args[:1]:
+                            if a[0] in ('copy', 'move'):
+                                work.append((a[1][0], fields_of(a[1][1])))
+                    continue
                 if through_calls or any(match_any(ITER_ADAPTERS, nn) for nn in c.names()):
                     for a in c.args:
                         if a[0] in ('copy', 'move'):
